@@ -1,4 +1,5 @@
 import Ogen.SecurityHandler_proof
+import Ogen.AuthHeader_proof
 import Ogen.Generated.Facts_tmpl
 /-!
 # C09 — security requirements
@@ -52,4 +53,27 @@ theorem anonymous (os : List Outcome) (reqs : List (List Nat)) (hnr : Outcome.re
 theorem k2 : secDecide [.rejected, .accepted] [[0], [1]] = .unauthorized ∧ AltAccepted [.rejected, .accepted] [1] :=
   Sec.k2_witness
 theorem k2_anonymous : secDecide [.rejected] [[], [0]] = .unauthorized := Sec.k2_witness_anonymous
+/-! ### how a bearer / basic credential is found in the request (`findAuthorization`, security.tmpl)
+
+The scheme outcomes above start from "the credential is present"; this is the step before: the model
+`AuthH.find` (tied to regenerated servers through the driver tag `authz`: header value lists with one to three
+values, the separator byte varied, scheme names in other cases and with the two non-ASCII code points that fold
+into ASCII letters). -/
+
+/-- **credentials are taken from a header value only if it reads `scheme SP credentials`** with the scheme name
+    equal to the expected one up to case — and then they are everything after the first space of the first such
+    value -/
+theorem authorization_found_iff (scheme : AuthH.Str) (values : List AuthH.Str) (tok : AuthH.Str) :
+    AuthH.find scheme values = some tok ↔
+      ∃ pre v post, values = pre ++ v :: post ∧ AuthH.Carries scheme v tok ∧
+        ∀ w ∈ pre, ∀ t, ¬ AuthH.Carries scheme w t := AuthH.find_iff scheme values tok
+
+/-- no value of that form ⇒ the scheme counts as absent (with no other alternative: 401, handler not invoked) -/
+theorem authorization_absent_iff (scheme : AuthH.Str) (values : List AuthH.Str) :
+    AuthH.find scheme values = none ↔ ∀ v ∈ values, ∀ t, ¬ AuthH.Carries scheme v t :=
+  AuthH.find_none_iff scheme values
+
+/-- a value whose scheme name is followed by anything but a space carries nothing (`BearerXtok`, `Bearer=tok`) -/
+example : AuthH.find (AuthH.s "Bearer") [AuthH.s "BearerXtok", AuthH.s "Bearer=tok", AuthH.s "Bearer\ttok"] = none := by decide
+
 end C09
